@@ -92,7 +92,7 @@ pub fn run(args: &Args) {
             }
             (g.lines.clone(), "generated".to_string())
         } else {
-            let (l, name) = edge_template(&mut r);
+            let (l, name) = if r.chance(1, 4) { postproc_template(&mut r) } else { edge_template(&mut r) };
             (l, format!("edge:{name}"))
         };
         let okind = origin.split(':').next().unwrap().to_string();
